@@ -3463,6 +3463,22 @@ class PyCdlib:
 
         return num_bytes_to_add
 
+    def _forget_boot_catalog_name(self, rec):
+        # type: (Union[dr.DirectoryRecord, udfmod.UDFFileEntry]) -> None
+        """
+        An internal method to drop a record that is about to be removed from
+        the names of the El Torito Boot Catalog, if it is one of them, so that
+        rm_eltorito() does not try to remove it a second time.
+
+        Parameters:
+         rec - The Directory Record or UDF File Entry that is being removed.
+        Returns:
+         Nothing.
+        """
+        if self.eltorito_boot_catalog is not None:
+            self.eltorito_boot_catalog.dirrecords = [catrec for catrec in self.eltorito_boot_catalog.dirrecords
+                                                     if id(catrec) != id(rec)]
+
     def _rm_dr_link(self, rec):
         # type: (dr.DirectoryRecord) -> int
         """
@@ -3475,6 +3491,8 @@ class PyCdlib:
         """
         if not rec.is_file():
             raise pycdlibexception.PyCdlibInvalidInput('Cannot remove a directory with rm_hard_link (try rm_directory instead)')
+
+        self._forget_boot_catalog_name(rec)
 
         num_bytes_to_remove = 0
 
@@ -3551,6 +3569,8 @@ class PyCdlib:
         """
         if not rec.is_file() and not rec.is_symlink():
             raise pycdlibexception.PyCdlibInvalidInput('Cannot remove a directory with rm_hard_link (try rm_directory instead)')
+
+        self._forget_boot_catalog_name(rec)
 
         # To remove something from UDF, we have to:
         # 1.  Remove it from the list of linked_records on the Inode.
@@ -5441,7 +5461,7 @@ class PyCdlib:
 
         # Remove all of the DirectoryRecord/UDFFileEntries associated with
         # the Boot Catalog.
-        for rec in self.eltorito_boot_catalog.dirrecords:
+        for rec in list(self.eltorito_boot_catalog.dirrecords):
             if isinstance(rec, dr.DirectoryRecord):
                 num_bytes_to_remove += self._rm_dr_link(rec)
             elif isinstance(rec, udfmod.UDFFileEntry):
